@@ -25,7 +25,7 @@ SIZES = [1, 10, 33, 100]
 
 
 def plan(tier):
-    n = 60 if tier == "quick" else 2500
+    n = 60 if tier == "quick" else 1200
     return [{"kind": "hyp", "n": n} for _ in range(16)]
 
 
